@@ -106,7 +106,13 @@ def apply_rewrite(kind, st, case, rng, scratch):
     if kind == "copy":
         return State(p.copy(), dict(st.names), list(st.outs), st.conv, st.scope, st.nested)
     if kind == "pickle":
-        return State(cloudpickle.loads(cloudpickle.dumps(p)), dict(st.names), list(st.outs), st.conv, st.scope, st.nested)
+        try:
+            q = cloudpickle.loads(cloudpickle.dumps(p))
+        except RuntimeError as e:
+            if "Cannot pickle non-shared cache" in str(e):  # documented refusal (pipelines with a process-local cache)
+                raise Skip from None
+            raise
+        return State(q, dict(st.names), list(st.outs), st.conv, st.scope, st.nested)
     if kind in ("join", "or"):
         fs = list(p.functions)
         if len(fs) < 2:
@@ -367,9 +373,24 @@ def run_dag(v, desc, scratch, keys):
     for i in range(desc["start"], desc["start"] + desc["n"]):
         case = daggen.case_from_seed(desc["seed"], i, p_ign=0.0)
         rng = random.Random(f"c10:{desc['seed']}:{i}")
+        cached = i % 4 == 3
         try:
             with quiet():
-                p0 = daggen.build_pipeline(case, explicit_defaults=(i % 2 == 0))
+                if cached:
+                    # every function cached and the ORIGINAL already evaluated (warm cache) before it is rewritten: a
+                    # rewritten pipeline must not be answered from what the original computed under other names
+                    p0 = daggen.build_pipeline(case, explicit_defaults=(i % 2 == 0), cache={f["name"] for f in case["funcs"]},
+                                               pipeline_kwargs=[{"cache_type": "simple"}, {"cache_type": "lru", "cache_kwargs": {"shared": False}}][(i // 4) % 2])
+                    wrng = random.Random(f"c10warm:{desc['seed']}:{i}")
+                    for out in daggen.all_outputs(case):
+                        for K in keyword_sets(case, out, wrng, False):
+                            try:
+                                p0(out, **K)
+                            except Exception:  # noqa: BLE001
+                                pass
+                    v.count("cases_with_warm_cache")
+                else:
+                    p0 = daggen.build_pipeline(case, explicit_defaults=(i % 2 == 0))
         except Exception as e:  # noqa: BLE001
             v.bad(exc_sig(e, "refused-construct"), f"valid DAG refused: {exc_msg(e)}", case=daggen.describe(case))
             continue
@@ -423,6 +444,29 @@ def run_dag(v, desc, scratch, keys):
                             tgt.update_bound({cur[0]: "MUTATED"})
                 except Exception:  # noqa: BLE001
                     pass
+                # ... and USE the mutated object (whatever it returns now): nothing it computes or caches may reach the original
+                # (with argument values nobody used before, so that nothing is answered from a warm cache)
+                fresh_calls = []
+                for out_ in st.outs:
+                    K_ = {r: f"n_{r}" for r in daggen.needed_roots(case, out_)}
+                    try:
+                        with quiet():
+                            call_state(st, out_, K_)
+                    except Exception:  # noqa: BLE001
+                        pass
+                    fresh_calls.append((out_, K_))
+                for out_, K_ in fresh_calls:
+                    try:
+                        ref_ = daggen.ref_eval(case, out_, K_)
+                        with quiet():
+                            got_ = call_state(base, out_, K_)
+                    except Exception:  # noqa: BLE001  (judged by check_state below)
+                        continue
+                    v.count("values_compared")
+                    if got_ != ref_["value"]:
+                        v.bad("original-changed-by-use-of-mutated-" + "+".join(chain), f"{out_}: the original returns {got_!r:.160} after the rewritten and "
+                              f"then mutated pipeline was used with the same arguments; expected {ref_['value']!r:.160}", **w)
+                        break
                 v.count("non_interference_checks")
                 # the untouched original must not change - observed directly and through a further rewrite of it
                 check_state(v, case, base, ["original-after-mutating-result-of"] + chain, rng, w)
@@ -434,13 +478,39 @@ def run_dag(v, desc, scratch, keys):
                     v.bad(exc_sig(e, "copy-of-original-after-mutation"), f"copying the original after mutating the rewritten pipeline raised {exc_msg(e)}", **w)
 
 
+def bound_downstream_case(rng):
+    """Directed family: the scalar root x0 is an ordinary input of f0, while a function downstream of f0 BINDS a parameter
+    of the same name (so it depends on x0 only through f0's output); optionally a third function binds nothing."""
+    n = rng.randint(2, 3)
+
+    def fn(name, params, outs, mapspec, modes, out_axes, bound=None):
+        d = {"name": name, "params": params, "outs": outs, "mapspec": mapspec, "modes": modes, "out_axes": list(out_axes),
+             "internal": [], "internal_shape": [], "ret_list": False, "ishape_via": None}
+        if bound:
+            d["bound"] = bound
+        return d
+    mapped = rng.random() < 0.7
+    roots = {"x0": {"axes": [], "kind": "scalar"}, "x1": {"axes": ["i"] if mapped else [], "kind": "list" if mapped else "scalar"}}
+    ax = ["i"] if mapped else []
+    sub = "[i]" if mapped else ""
+    funcs = [fn("f0", ["x1", "x0"], ["y0"], f"x1[i] -> y0[i]" if mapped else None, {"x1": ["i"] if mapped else "whole", "x0": "whole"}, ax),
+             fn("f1", ["y0", "x0"], ["y1"], f"y0[i] -> y1[i]" if mapped else None, {"y0": ["i"] if mapped else "whole", "x0": "whole"}, ax,
+                bound={"x0": "Bf1x0"})]
+    if n == 3:
+        funcs.append(fn("f2", ["y1", "x0"], ["y2"], f"y1[i] -> y2[i]" if mapped else None, {"y1": ["i"] if mapped else "whole", "x0": "whole"}, ax))
+    return {"sizes": {a: rng.randint(1, 3) for a in mapgen.AX}, "roots": roots, "funcs": funcs}
+
+
 # ------------------------------------------------------------------------------------------ map part
 def run_map(v, desc, scratch, keys):
     import cloudpickle
 
     for i in range(desc["start"], desc["start"] + desc["n"]):
-        case = mapgen.case_from_seed(desc["seed"], i, max_funcs=3)
+        case = mapgen.case_from_seed(desc["seed"], i, max_funcs=3, allow_bound=(i % 2 == 1))
         rng = random.Random(f"c10m:{desc['seed']}:{i}")
+        if i % 4 == 2:
+            case = bound_downstream_case(rng)
+            v.count("map_cases_binding_a_lifted_name_downstream")
         env, _ = mapgen.oracle(case)
         inputs = mapgen.make_inputs(case)
         ish = mapgen.internal_shapes_arg(case)
@@ -525,7 +595,8 @@ def map_chain(v, case, p0, env, inputs, ish, outs, chain, scal, rng, scratch, ta
     v.count("add_mapspec_axis_runs")
     dependent = set()
     for f in case["funcs"]:
-        if pname in f["params"] or any(p_ in dependent for p_ in f["params"]):
+        # a function that BINDS pname does not receive the input of that name (but may depend on it through upstream outputs)
+        if (pname in f["params"] and pname not in f.get("bound", {})) or any(p_ in dependent for p_ in f["params"]):
             dependent.update(f["outs"])
     per = [mapgen.oracle(case, {**inputs, pname: val})[0] for val in vals]
     for f in case["funcs"]:
